@@ -310,17 +310,22 @@ def _corrupt(ctx, d):
             inbody = False
         elif inbody:
             for j, ch in enumerate(l):
-                if ch in B64:
+                if ch in B64 or ch == '=':
                     pos.append(off + j)
         off += len(l) + 1
     mine = [p for i, p in enumerate(pos) if i % d['of'] == d['part']]
+    # the pad characters and the marker of the checksum line are always tried, whatever the share of this case
+    mine += [p for p in pos if text[p] == '=' and p not in mine and d['part'] == 0]
     for p in mine:
         ch = text[p]
-        idx = B64.index(ch)
-        for k in range(d['reps']):
-            rep = B64[(idx + 1 + k * 17) % 64]
+        idx = B64.index(ch) if ch in B64 else 0
+        for k in range(d['reps'] + 1):
+            # the last replacement turns a radix-64 character into the pad / marker character
+            rep = B64[(idx + 1 + k * 17) % 64] if k < d['reps'] else '='
             if rep == ch:
                 continue
+            if ch == '=':
+                ctx.count('pad_or_marker_corruptions')
             bad = text[:p] + rep + text[p + 1:]
             try:
                 rd = armor.dearmor(bad)
